@@ -20,6 +20,9 @@ struct Faults {
     revoke_at: Option<u64>,
     max_files_seen: usize,
     dir_removed: bool,
+    /// a connection task was cancelled by the harness: only then can a handler job outlive
+    /// its connection (the job owns the request and its file until it returns)
+    cancelled: bool,
 }
 impl Extras for Faults {
     fn enabled(&mut self, eng: &Engine) -> Vec<u32> {
@@ -58,6 +61,7 @@ impl Extras for Faults {
                 if !victims.is_empty() {
                     let t = victims[gen::below(victims.len() as u32) as usize];
                     sim_core::cancel_task(t);
+                    self.cancelled = true;
                     gen::count("fault.task_cancelled");
                 }
                 self.cancel_at = None;
@@ -78,13 +82,17 @@ impl Extras for Faults {
             self.max_files_seen = files.len();
         }
         if !files.is_empty() {
-            let holders = with(|w| w.net.conns.iter().filter(|c| c.accepted && !c.server_closed).count() + w.jobs.len());
+            // The server keeps a connection open for as long as its request is being received
+            // or handled, so a file needs an open connection - or, after an injected task
+            // cancellation, a handler job that is still running.
+            let cancelled = self.cancelled;
+            let holders = with(|w| w.net.conns.iter().filter(|c| c.accepted && !c.server_closed).count() + if cancelled { w.jobs.len() } else { 0 });
             // (An implementation may use more than one file per request, so only the
             // absence of ANY live request makes a file an orphan at this point.)
             if holders == 0 {
                 return Some(Violation {
                     clause: "C10.file_has_live_request".into(),
-                    detail: format!("{} file(s) {:?} in the cache dir although no request is being received or handled any more", files.len(), files),
+                    detail: format!("{} file(s) {:?} in the cache dir although the server holds no open connection any more (the request was answered or abandoned; a handler still running for it does not keep the request alive)", files.len(), files),
                 });
             }
         }
@@ -223,6 +231,7 @@ fn scenario(cfg: &RunCfg) -> Outcome {
         revoke_at: if with_permit { Some(u64::from(gen::below(200))) } else { None },
         max_files_seen: 0,
         dir_removed: false,
+        cancelled: false,
     };
     if let Some(v) = eng.run(&mut ex) {
         let mut v = v;
